@@ -204,6 +204,7 @@ func (fr *Frame) havocLoop(st *State, h *ssa.BasicBlock, body map[*ssa.BasicBloc
 	if fp.locks {
 		st.Comp["lock"] = c.freshConst("lock_lp", x.compSort("lock"))
 	}
+	x.reassumeImmutable(st)
 	var cs []string
 	for k := range fp.cnts {
 		cs = append(cs, k)
